@@ -10,9 +10,10 @@ import (
 var (
 	Buckets = []string{"bk", "b2"}
 	// SafeNames are representable as files next to each other (no name is a directory of another).
-	SafeNames = []string{"a", "a.txt", "a-b", "b/c", "b/d.e", "b c", "b/e/f", "ü", "b.c", "b/e/g"}
+	// ("a+b": a '+' travels literally in a URL path and means itself there, unlike in a query)
+	SafeNames = []string{"a", "a.txt", "a-b", "b/c", "b/d.e", "b c", "b/e/f", "ü", "b.c", "b/e/g", "a+b"}
 	// MemNames additionally mix names and "directories", bytes below '/', and API path fragments.
-	MemNames = []string{"a", "a.txt", "a/b", "a/b/c", "a-b", "a/c", "b", "a b", "ab", "x/o/y", "a%2Fb", LongName}
+	MemNames = []string{"a", "a.txt", "a/b", "a/b/c", "a-b", "a/c", "b", "a b", "ab", "x/o/y", "a%2Fb", "c++/m+n", LongName}
 	// LongName: 900 bytes, inside the 1024-byte limit of object names (its page token is longer than that)
 	LongName = "a/" + strings.Repeat("n", 898)
 	Payloads = [][]byte{{}, []byte("x"), []byte("hello"), {0, 1, 2, 255, 254, 10, 13}, []byte("0123456789abcdef0123456789")}
@@ -47,7 +48,8 @@ func (g *Gen) payload() []byte {
 }
 
 var Profiles = map[string]Profile{
-	"c02":    {Name: "c02", Upload: 40, Resumable: 25, GetMeta: 8, GetMedia: 12, Delete: 10, List: 3, MkBucket: 2, CondPct: 8, Names: SafeNames, MinOps: 6, MaxOps: 30, ReadBack: true},
+	// (composes, copies and patches of OTHER names are there for "objects under other names are never affected")
+	"c02":    {Name: "c02", Upload: 40, Resumable: 25, GetMeta: 8, GetMedia: 12, Delete: 10, List: 3, MkBucket: 2, Compose: 6, Copy: 5, Patch: 4, CondPct: 8, Names: SafeNames, MinOps: 6, MaxOps: 30, ReadBack: true},
 	// payloads beyond every buffer size in sight (10 MiB + a bit): one upload per protocol, read back
 	"c02big": {Name: "c02big", Upload: 60, Resumable: 40, CondPct: 0, Names: SafeNames[:3], MinOps: 2, MaxOps: 3, ReadBack: true, BigPayload: 10<<20 + 4096},
 	"c04":    {Name: "c04", Upload: 30, Resumable: 10, Patch: 20, Delete: 15, Compose: 15, GetMeta: 5, CondPct: 85, Names: SafeNames[:4], MinOps: 8, MaxOps: 30, ReadBack: true},
@@ -99,6 +101,10 @@ func (g *Gen) meta(rich bool) Meta {
 			m.UM = append(m.UM, KV{core.Pick(g.R, []string{"k1", "k2", "ü"}), core.Pick(g.R, []string{"v", "w", ""})})
 		}
 		m.UM = dedupKV(m.UM)
+		if len(m.UM) == 0 && g.R.Chance(1, 3) {
+			m.EmptyUM = true
+		}
+		m.OutOnly = g.R.Chance(1, 8)
 	}
 	return m
 }
